@@ -31,12 +31,12 @@ func runC05(c *Ctx, r *Report) {
 	c06R3(c, r, "C05.R8")
 	c06R4(c, r, "C05.R9")
 	c06R10(c, r, "C05.R10")
-	c02Router(c, r, "C05.R11")   // nothing runs after aborted matching, also below a route that was not terminal (route-loop exploration)
-	c01R1(c, r, "C05.R15")       // the buffer bound holds only for frozen matchers: every matcher of a set runs between its own freeze and unfreeze (a nested set - not - must not leave the outer one unfrozen)
-	c06IsHTTP(c, r, "C05.R16")   // matching that exhausts the buffer ends with the buffer-full error and no handler: the http matcher keeps answering need-more for a first line that has not ended (a "no" at the limit would let the next route or the fallback handle the connection)
-	c05UDPWaits(c, r, "C05.R17") // the emulated deadline of a UDP association works only where Read watches its timer
+	c02Router(c, r, "C05.R11")         // nothing runs after aborted matching, also below a route that was not terminal (route-loop exploration)
+	c01R1(c, r, "C05.R15")             // the buffer bound holds only for frozen matchers: every matcher of a set runs between its own freeze and unfreeze (a nested set - not - must not leave the outer one unfrozen)
+	c06IsHTTP(c, r, "C05.R16")         // matching that exhausts the buffer ends with the buffer-full error and no handler: the http matcher keeps answering need-more for a first line that has not ended (a "no" at the limit would let the next route or the fallback handle the connection)
+	c05UDPWaits(c, r, "C05.R17")       // the emulated deadline of a UDP association works only where Read watches its timer
 	c04BoundedParsers(c, r, "C05.R18") // an undecided route is not abandoned: the HTTP/2 framer's limit is a constant, not what happens to be buffered (a frame larger than the bytes prefetched so far is a hard error then, not need-more)
-	c02R1(c, r, "C05.R12")       // the combinators hand need-more up: an undecided set is never overridden by a later set's "no"
+	c02R1(c, r, "C05.R12")             // the combinators hand need-more up: an undecided set is never overridden by a later set's "no"
 }
 
 func c05R1(c *Ctx, r *Report, rule string) {
